@@ -227,6 +227,19 @@ def damaged_entry(ident, kind, placement, is_term=False):
         t = {"first-line": head + " text { $x more\n", "continuation": head + " a\n    b { $x c\n",
              "attribute": head + " v\n    .bad = x { y\n", "term-value": "-" + ident + " = x { y\n"}
         return t.get(placement)
+    if kind == "unclosed-at-eol":
+        # the placeable is still open at the end of the line: the error is found on a LATER line (the next entry's)
+        t = {"first-line": head + " A {\n", "continuation": head + " a\n    b {\n",
+             "attribute": head + " v\n    .bad = x {\n", "term-value": "-" + ident + " = x {\n"}
+        return t.get(placement)
+    if kind == "unclosed-call-at-eol":
+        t = {"first-line": head + " { NUMBER(\n", "continuation": head + " a\n    { NUMBER($x,\n",
+             "attribute": head + " v\n    .bad = { FOO(\n", "term-value": "-" + ident + " = { -t(\n"}
+        return t.get(placement)
+    if kind == "unclosed-select-at-eol":
+        t = {"first-line": head + " { $x ->\n", "continuation": head + " a\n    { $x ->\n        [one] v\n",
+             "attribute": head + " v\n    .bad = { $x ->\n", "term-value": "-" + ident + " = { $x ->\n       *[o] v\n"}
+        return t.get(placement)
     if kind == "missing-value":
         t = {"first-line": head + "\n", "term-value": "-" + ident + " =\n", "attribute": head + " v\n    .bad =\n",
              "continuation": head + "   \n\n"}
@@ -238,7 +251,7 @@ def damaged_entry(ident, kind, placement, is_term=False):
     return None
 
 
-KINDS = list(BAD_EXPR) + ["unbalanced-close", "unbalanced-open", "missing-value", "missing-equals"]
+KINDS = list(BAD_EXPR) + ["unbalanced-close", "unbalanced-open", "unclosed-at-eol", "unclosed-call-at-eol", "unclosed-select-at-eol", "missing-value", "missing-equals"]
 
 
 def damage_cases(rng, n):
@@ -295,7 +308,7 @@ class C03(Base):
     AREA = "parse"
     LEMMA_FILES = ["FluentProofs/ParserLoops.lean", "FluentProofs/ParserLines.lean", "FluentProofs/ParserBasics.lean", "FluentProofs/ParserHoareEntry.lean", "FluentProofs/ParserValid.lean", "FluentProofs/ParserValidLeaf.lean", "FluentProofs/ParserValidExpr.lean", "FluentProofs/ParserValidEntry.lean", "FluentProofs/ConstTieSyntax.lean"]
     RULE = ("the C01 generator mix (accounting clauses and the admission predicate recomputed on every output of both "
-            "parsers) plus the damage generator: random well-formed resource x entry index x 29 violation kinds (the "
+            "parsers) plus the damage generator: random well-formed resource x entry index x 32 violation kinds (the "
             "documented ones) x 7 placements (first line, continuation line, nested placeable, call argument, variant "
             "value, term value, attribute), original and damaged text parsed side by side. Non-trivial = the output has "
             ">=1 Junk AND >=1 admitted message/term, or it is a damage pair; distinct = distinct case line.")
